@@ -638,6 +638,22 @@ func checkC11Anchors(c *Ctx) {
 		r.Undecided("C11.anchor", "parseAtom", "definition", "fc", "anchor function not found")
 	}
 	checkStringValWriters(c, f)
+	// the text the emitters produce reaches the file as emitted: no pass rewrites the program text afterwards
+	c.checkPins(f, "C11.anchor", c04ImportPins[:1])
+	if _, fn := f.NF("transpileOne"); fn != nil {
+		okW, nW := true, 0
+		ir.Walk(f.N.Func(fn), func(t ir.Term) bool {
+			if app, ok := isCallTo(t, sysPath+".WriteFile"); ok && len(app.Args) == 2 {
+				nW++
+				if !strictlyContains(f.Path, app.Args[1], "RootStmtsToGo(#1(ParseAll(psSetNewSrc(#0(sys.ReadFile(p1)), p0))))") {
+					okW = false
+				}
+			}
+			return true
+		})
+		r.Check(okW && nW >= 1, "C11.anchor", "transpileOne", "written-text", c.Pos(f.M.Fset, fn.Decl.Pos()), "the text written is RootStmtsToGo's (possibly with a head or a tail added)",
+			"the text written is not what the emitters produced: a pass between the emitters and the file can re-encode the literals")
+	}
 	// the text the scanners read is the file's content: nothing rewrites the source between sys.ReadFile and the tokenizer
 	forwarders := map[string]bool{"psSetNewSrc": true, "newTkz": true, "initParse": true}
 	nsrc := 0
